@@ -1243,7 +1243,7 @@ impl Domain for D {
         let thorough = tier == "thorough";
         // 1. scripted scenarios for every small container shape
         let shapes: Vec<(usize, usize)> = if miri {
-            vec![(0, 0), (2, 1), (4, 0), (4, 4)]
+            vec![(0, 0), (4, 0), (4, 1)]
         } else {
             let mut v = vec![];
             for cap in [0usize, 1, 2, 3, 4, 5, 8, 16, 32] {
@@ -1258,6 +1258,9 @@ impl Domain for D {
         for kind in KINDS {
             for &(cap, len) in &shapes {
                 if (kind == "slice" || kind == "sref") && len != 0 {
+                    continue;
+                }
+                if miri && (kind == "vec" || kind == "arr") && (cap, len) == (4, 0) {
                     continue;
                 }
                 scripted(out, kind, cap, len);
